@@ -2,13 +2,1176 @@
 From Coq Require Import List ZArith String Bool Arith Lia.
 From MechV Require Import Base.Sexp Base.Obs Proofs.SexpP Model.Fsm.
 Import ListNotations.
+Open Scope list_scope.
 
-(* ---------- the run loop is total and bounded by the transition limit ---------- *)
-Lemma run_length (arms : list arm) : forall fuel e st, List.length (fst (run arms fuel e st)) <= fuel.
+(* =====================================================================
+   1. Declarative reading of "the first transition whose guard holds"
+   ===================================================================== *)
+Definition guard_holds (e : env) (g : guard) : Prop := eval_guard e g = Ok true.
+Definition guard_fails (e : env) (g : guard) : Prop := eval_guard e g = Ok false.
+
+(* arm [a] is passed over in state [st]: its pattern does not match, or it is a guard arm
+   all of whose guards evaluate to false *)
+Definition arm_skipped (e : env) (st : state) (a : arm) : Prop :=
+  match_arm e st a = None \/
+  exists e' gs, match_arm e st a = Some e' /\ a_body a = BG gs /\
+                Forall (fun gt => guard_fails e' (fst gt)) gs.
+
+(* guard number j of [gs] is the first one that holds; its target is t *)
+Definition guard_fires (e' : env) (gs : list (guard * target)) (j : nat) (t : target) : Prop :=
+  exists g, nth_error gs j = Some (g, t) /\ guard_holds e' g /\
+            forall k gt, k < j -> nth_error gs k = Some gt -> guard_fails e' (fst gt).
+
+(* arm number i is the first applicable arm: it fires (with its guard gi) in environment e' *)
+Definition fires (e : env) (st : state) (arms : list arm) (i : nat) (gi : option nat) (e' : env) (t : target) : Prop :=
+  exists a, nth_error arms i = Some a /\ match_arm e st a = Some e' /\
+    (forall k b, k < i -> nth_error arms k = Some b -> arm_skipped e st b) /\
+    match gi with
+    | None => a_body a = BT t
+    | Some j => exists gs, a_body a = BG gs /\ guard_fires e' gs j t
+    end.
+
+(* a guard of the first matching guard arm fails to evaluate before any guard holds *)
+Definition guard_errs (e' : env) (gs : list (guard * target)) : Prop :=
+  exists j g t, nth_error gs j = Some (g, t) /\ eval_guard e' g = Err /\
+                forall k gt, k < j -> nth_error gs k = Some gt -> guard_fails e' (fst gt).
+
+Definition sel_errs (e : env) (st : state) (arms : list arm) : Prop :=
+  exists i a e' gs, nth_error arms i = Some a /\ match_arm e st a = Some e' /\
+    (forall k b, k < i -> nth_error arms k = Some b -> arm_skipped e st b) /\
+    a_body a = BG gs /\ guard_errs e' gs.
+
+(* ---------- first_guard ---------- *)
+Lemma first_guard_some e' : forall gs n j t,
+  first_guard e' gs n = Ok (Some (j, t)) -> n <= j /\ guard_fires e' gs (j - n) t.
 Proof.
-  induction fuel as [|f IH]; intros e st; cbn [run]; [cbn; lia|].
-  destruct (select e st arms 0) as [| |i g e' [s xs|x]]; cbn; try lia.
-  - destruct (eval_list e' xs) as [vs|]; cbn; [|lia].
-    specialize (IH e' (s, vs)). destruct (run arms f e' (s, vs)) as [tr o]. cbn in *. lia.
-  - destruct (eval e' x); cbn; lia.
+  induction gs as [|[g t0] r IH]; intros n j t H; cbn [first_guard] in H; [discriminate|].
+  destruct (eval_guard e' g) as [[|]|] eqn:Eg; try discriminate.
+  - inversion H; subst. split; [lia|]. replace (j - j) with 0 by lia.
+    exists g. split; [reflexivity|]. split; [exact Eg|]. intros k gt Hk; lia.
+  - apply IH in H as [Hle (g' & Hn & Hh & Hb)]. split; [lia|].
+    replace (j - n) with (S (j - S n)) by lia. exists g'. split; [exact Hn|]. split; [exact Hh|].
+    intros [|k] gt Hk Hk'; cbn in Hk'.
+    + inversion Hk'; subst. exact Eg.
+    + apply (Hb k gt); [lia|exact Hk'].
+Qed.
+
+Lemma first_guard_none e' : forall gs n,
+  first_guard e' gs n = Ok None -> Forall (fun gt => guard_fails e' (fst gt)) gs.
+Proof.
+  induction gs as [|[g t0] r IH]; intros n H; cbn [first_guard] in H; [constructor|].
+  destruct (eval_guard e' g) as [[|]|] eqn:Eg; try discriminate.
+  constructor; [exact Eg | eapply IH; exact H].
+Qed.
+
+Lemma first_guard_err e' : forall gs n, first_guard e' gs n = Err -> guard_errs e' gs.
+Proof.
+  induction gs as [|[g t0] r IH]; intros n H; cbn [first_guard] in H; [discriminate|].
+  destruct (eval_guard e' g) as [[|]|] eqn:Eg; try discriminate.
+  - apply IH in H as (j & g' & t & Hn & He & Hb). exists (S j), g', t. split; [exact Hn|]. split; [exact He|].
+    intros [|k] gt Hk Hk'; cbn in Hk'.
+    + inversion Hk'; subst. exact Eg.
+    + apply (Hb k gt); [lia|exact Hk'].
+  - exists 0, g, t0. split; [reflexivity|]. split; [exact Eg|]. intros k gt Hk; lia.
+Qed.
+
+(* the three cases exclude one another *)
+Lemma guard_fires_unique e' gs j t j' t' :
+  guard_fires e' gs j t -> guard_fires e' gs j' t' -> j = j' /\ t = t'.
+Proof.
+  intros (g & Hn & Hh & Hb) (g' & Hn' & Hh' & Hb').
+  destruct (Nat.lt_trichotomy j j') as [Hlt|[Heq|Hgt]].
+  - specialize (Hb' j (g, t) Hlt Hn). unfold guard_holds, guard_fails in *. cbn in Hb'. congruence.
+  - subst. rewrite Hn in Hn'. inversion Hn'. auto.
+  - specialize (Hb j' (g', t') Hgt Hn'). unfold guard_holds, guard_fails in *. cbn in Hb. congruence.
+Qed.
+
+Lemma guard_fires_not_all_fail e' gs j t :
+  guard_fires e' gs j t -> Forall (fun gt => guard_fails e' (fst gt)) gs -> False.
+Proof.
+  intros (g & Hn & Hh & _) Hall. rewrite Forall_forall in Hall.
+  apply nth_error_In in Hn. specialize (Hall _ Hn). unfold guard_holds, guard_fails in *. cbn in Hall. congruence.
+Qed.
+
+Lemma guard_errs_not_all_fail e' gs :
+  guard_errs e' gs -> Forall (fun gt => guard_fails e' (fst gt)) gs -> False.
+Proof.
+  intros (j & g & t & Hn & He & _) Hall. rewrite Forall_forall in Hall.
+  apply nth_error_In in Hn. specialize (Hall _ Hn). unfold guard_fails in *. cbn in Hall. congruence.
+Qed.
+
+Lemma guard_fires_not_errs e' gs j t : guard_fires e' gs j t -> guard_errs e' gs -> False.
+Proof.
+  intros (g & Hn & Hh & Hb) (j' & g' & t' & Hn' & He' & Hb').
+  destruct (Nat.lt_trichotomy j j') as [Hlt|[Heq|Hgt]].
+  - specialize (Hb' j (g, t) Hlt Hn). unfold guard_holds, guard_fails in *. cbn in Hb'. congruence.
+  - subst. rewrite Hn in Hn'. inversion Hn'; subst. unfold guard_holds in Hh. congruence.
+  - specialize (Hb j' (g', t') Hgt Hn'). unfold guard_fails in Hb. cbn in Hb. congruence.
+Qed.
+
+(* ---------- select ---------- *)
+Lemma skipped_shift e st a r i :
+  arm_skipped e st a ->
+  (forall k b, k < i -> nth_error r k = Some b -> arm_skipped e st b) ->
+  forall k b, k < S i -> nth_error (a :: r) k = Some b -> arm_skipped e st b.
+Proof.
+  intros Ha Hr [|k] b Hk Hn; cbn in Hn.
+  - inversion Hn; subst. exact Ha.
+  - apply (Hr k b); [lia|exact Hn].
+Qed.
+
+Lemma select_sel e st : forall arms n i gi e' t,
+  select e st arms n = Sel i gi e' t -> n <= i /\ fires e st arms (i - n) gi e' t.
+Proof.
+  induction arms as [|a r IH]; intros n i gi e' t H; cbn [select] in H; [discriminate|].
+  destruct (match_arm e st a) as [e1|] eqn:Em.
+  - destruct (a_body a) as [t1|gs] eqn:Eb.
+    + inversion H; subst. split; [lia|]. replace (i - i) with 0 by lia.
+      exists a. split; [reflexivity|]. split; [exact Em|]. split; [intros k b Hk; lia|exact Eb].
+    + destruct (first_guard e1 gs 0) as [[[j t1]|]|] eqn:Eg; try discriminate.
+      * inversion H; subst. apply first_guard_some in Eg as [_ Hf]. rewrite Nat.sub_0_r in Hf.
+        split; [lia|]. replace (i - i) with 0 by lia.
+        exists a. split; [reflexivity|]. split; [exact Em|]. split; [intros k b Hk; lia|].
+        exists gs. split; [exact Eb|exact Hf].
+      * apply first_guard_none in Eg. apply IH in H as [Hle (b & Hn & Hm & Hsk & Hg)]. split; [lia|].
+        replace (i - n) with (S (i - S n)) by lia.
+        exists b. split; [exact Hn|]. split; [exact Hm|]. split; [|exact Hg].
+        apply skipped_shift; [|exact Hsk]. right. exists e1, gs. auto.
+  - apply IH in H as [Hle (b & Hn & Hm & Hsk & Hg)]. split; [lia|].
+    replace (i - n) with (S (i - S n)) by lia.
+    exists b. split; [exact Hn|]. split; [exact Hm|]. split; [|exact Hg].
+    apply skipped_shift; [|exact Hsk]. left. exact Em.
+Qed.
+
+Lemma select_none e st : forall arms n, select e st arms n = SelNone -> Forall (arm_skipped e st) arms.
+Proof.
+  induction arms as [|a r IH]; intros n H; cbn [select] in H; [constructor|].
+  destruct (match_arm e st a) as [e1|] eqn:Em.
+  - destruct (a_body a) as [t1|gs] eqn:Eb; [discriminate|].
+    destruct (first_guard e1 gs 0) as [[[j t1]|]|] eqn:Eg; try discriminate.
+    apply first_guard_none in Eg. constructor; [|eapply IH; exact H]. right. exists e1, gs. auto.
+  - constructor; [left; exact Em|eapply IH; exact H].
+Qed.
+
+Lemma select_err e st : forall arms n, select e st arms n = SelErr -> sel_errs e st arms.
+Proof.
+  induction arms as [|a r IH]; intros n H; cbn [select] in H; [discriminate|].
+  assert (Hshift : forall (Ha : arm_skipped e st a), sel_errs e st r -> sel_errs e st (a :: r)).
+  { intros Ha (i & b & e' & gs & Hn & Hm & Hsk & Hb & Hg).
+    exists (S i), b, e', gs. split; [exact Hn|]. split; [exact Hm|]. split; [|auto].
+    apply skipped_shift; assumption. }
+  destruct (match_arm e st a) as [e1|] eqn:Em.
+  - destruct (a_body a) as [t1|gs] eqn:Eb; [discriminate|].
+    destruct (first_guard e1 gs 0) as [[[j t1]|]|] eqn:Eg; try discriminate.
+    + apply first_guard_none in Eg. apply Hshift; [|eapply IH; exact H]. right. exists e1, gs. auto.
+    + apply first_guard_err in Eg. exists 0, a, e1, gs. split; [reflexivity|]. split; [exact Em|].
+      split; [intros k b Hk; lia|]. auto.
+  - apply Hshift; [left; exact Em|eapply IH; exact H].
+Qed.
+
+(* the declarative notions are mutually exclusive and functional *)
+Lemma skipped_not_fires_here e st a e' :
+  arm_skipped e st a -> match_arm e st a = Some e' ->
+  forall gi t, match gi with None => a_body a = BT t | Some j => exists gs, a_body a = BG gs /\ guard_fires e' gs j t end -> False.
+Proof.
+  intros [Hn|(e1 & gs & Hm & Hb & Hall)] Hm' gi t Hg; [congruence|].
+  rewrite Hm in Hm'. inversion Hm'; subst.
+  destruct gi as [j|].
+  - destruct Hg as (gs' & Hb' & Hf). rewrite Hb in Hb'. inversion Hb'; subst.
+    eapply guard_fires_not_all_fail; eassumption.
+  - congruence.
+Qed.
+
+Lemma fires_unique e st arms i gi e' t i' gi' e'' t' :
+  fires e st arms i gi e' t -> fires e st arms i' gi' e'' t' ->
+  i = i' /\ gi = gi' /\ e' = e'' /\ t = t'.
+Proof.
+  intros (a & Hn & Hm & Hsk & Hg) (a' & Hn' & Hm' & Hsk' & Hg').
+  destruct (Nat.lt_trichotomy i i') as [Hlt|[Heq|Hgt]].
+  - exfalso. eapply (skipped_not_fires_here e st a e' (Hsk' i a Hlt Hn) Hm gi t). exact Hg.
+  - subst i'. rewrite Hn in Hn'. inversion Hn'; subst a'. rewrite Hm in Hm'. inversion Hm'; subst e''.
+    destruct gi as [j|], gi' as [j'|].
+    + destruct Hg as (gs & Hb & Hf), Hg' as (gs' & Hb' & Hf'). rewrite Hb in Hb'. inversion Hb'; subst gs'.
+      destruct (guard_fires_unique _ _ _ _ _ _ Hf Hf') as [-> ->]. auto.
+    + destruct Hg as (gs & Hb & _). congruence.
+    + destruct Hg' as (gs & Hb & _). congruence.
+    + rewrite Hg in Hg'. inversion Hg'. auto.
+  - exfalso. eapply (skipped_not_fires_here e st a' e'' (Hsk i' a' Hgt Hn') Hm' gi' t'). exact Hg'.
+Qed.
+
+Lemma fires_not_all_skipped e st arms i gi e' t :
+  fires e st arms i gi e' t -> Forall (arm_skipped e st) arms -> False.
+Proof.
+  intros (a & Hn & Hm & _ & Hg) Hall. rewrite Forall_forall in Hall.
+  eapply (skipped_not_fires_here e st a e' (Hall a (nth_error_In _ _ Hn)) Hm gi t). exact Hg.
+Qed.
+
+Lemma sel_errs_not_all_skipped e st arms : sel_errs e st arms -> Forall (arm_skipped e st) arms -> False.
+Proof.
+  intros (i & a & e' & gs & Hn & Hm & _ & Hb & Hg) Hall. rewrite Forall_forall in Hall.
+  destruct (Hall a (nth_error_In _ _ Hn)) as [Hno|(e1 & gs1 & Hm1 & Hb1 & Hf)]; [congruence|].
+  rewrite Hm in Hm1. inversion Hm1; subst. rewrite Hb in Hb1. inversion Hb1; subst.
+  eapply guard_errs_not_all_fail; eassumption.
+Qed.
+
+Lemma fires_not_sel_errs e st arms i gi e' t : fires e st arms i gi e' t -> sel_errs e st arms -> False.
+Proof.
+  intros (a & Hn & Hm & Hsk & Hg) (i' & a' & e'' & gs & Hn' & Hm' & Hsk' & Hb' & Hg').
+  destruct (Nat.lt_trichotomy i i') as [Hlt|[Heq|Hgt]].
+  - eapply (skipped_not_fires_here e st a e' (Hsk' i a Hlt Hn) Hm gi t). exact Hg.
+  - subst i'. rewrite Hn in Hn'. inversion Hn'; subst a'. rewrite Hm in Hm'. inversion Hm'; subst e''.
+    destruct gi as [j|].
+    + destruct Hg as (gs1 & Hb1 & Hf). rewrite Hb' in Hb1. inversion Hb1; subst. eapply guard_fires_not_errs; eassumption.
+    + congruence.
+  - destruct (Hsk i' a' Hgt Hn') as [Hno|(e1 & gs1 & Hm1 & Hb1 & Hf)]; [congruence|].
+    rewrite Hm' in Hm1. inversion Hm1; subst. rewrite Hb' in Hb1. inversion Hb1; subst.
+    eapply guard_errs_not_all_fail; eassumption.
+Qed.
+
+(* select computes exactly the declarative choice *)
+Theorem select_fires_iff e st arms i gi e' t :
+  select e st arms 0 = Sel i gi e' t <-> fires e st arms i gi e' t.
+Proof.
+  split.
+  - intros H. apply select_sel in H as [_ H]. rewrite Nat.sub_0_r in H. exact H.
+  - intros H. destruct (select e st arms 0) as [| |i1 g1 e1 t1] eqn:Es.
+    + exfalso. eapply fires_not_all_skipped; [exact H|]. eapply select_none; exact Es.
+    + exfalso. eapply fires_not_sel_errs; [exact H|]. eapply select_err; exact Es.
+    + apply select_sel in Es as [_ Es]. rewrite Nat.sub_0_r in Es.
+      destruct (fires_unique _ _ _ _ _ _ _ _ _ _ _ H Es) as (-> & -> & -> & ->). reflexivity.
+Qed.
+
+Theorem select_none_iff e st arms : select e st arms 0 = SelNone <-> Forall (arm_skipped e st) arms.
+Proof.
+  split; [apply select_none|]. intros H.
+  destruct (select e st arms 0) as [| |i1 g1 e1 t1] eqn:Es; [reflexivity| |].
+  - exfalso. eapply sel_errs_not_all_skipped; [eapply select_err; exact Es|exact H].
+  - apply select_sel in Es as [_ Es]. exfalso. eapply fires_not_all_skipped; eassumption.
+Qed.
+
+Theorem select_err_iff e st arms : select e st arms 0 = SelErr <-> sel_errs e st arms.
+Proof.
+  split; [apply select_err|]. intros H.
+  destruct (select e st arms 0) as [| |i1 g1 e1 t1] eqn:Es; [|reflexivity|].
+  - exfalso. eapply sel_errs_not_all_skipped; [exact H|eapply select_none; exact Es].
+  - apply select_sel in Es as [_ Es]. exfalso. eapply fires_not_sel_errs; eassumption.
+Qed.
+
+(* =====================================================================
+   2. The run a declaration determines, as a relation; [run] computes it
+   ===================================================================== *)
+Inductive Run (arms : list arm) : nat -> env -> state -> list visit -> outcome -> Prop :=
+| Run_limit e st : Run arms 0 e st [] (OLimit st)
+| Run_stuck n e st :
+    Forall (arm_skipped e st) arms -> Run arms (S n) e st [Visit st None] OStuck
+| Run_guard_err n e st :
+    sel_errs e st arms -> Run arms (S n) e st [Visit st None] OErr
+| Run_out n e st i gi e' x v :
+    fires e st arms i gi e' (TOut x) -> eval e' x = Ok v ->
+    Run arms (S n) e st [Visit st (Some (i, gi))] (ODone v)
+| Run_out_err n e st i gi e' x :
+    fires e st arms i gi e' (TOut x) -> eval e' x = Err ->
+    Run arms (S n) e st [Visit st (Some (i, gi))] OErr
+| Run_next n e st i gi e' s xs vs tr o :
+    fires e st arms i gi e' (TNext s xs) -> eval_list e' xs = Ok vs ->
+    Run arms n e' (s, vs) tr o ->
+    Run arms (S n) e st (Visit st (Some (i, gi)) :: tr) o
+| Run_next_err n e st i gi e' s xs :
+    fires e st arms i gi e' (TNext s xs) -> eval_list e' xs = Err ->
+    Run arms (S n) e st [Visit st (Some (i, gi))] OErr.
+
+Lemma run_sound arms : forall n e st tr o, run arms n e st = (tr, o) -> Run arms n e st tr o.
+Proof.
+  induction n as [|n IH]; intros e st tr o H; cbn [run] in H.
+  - inversion H; subst. constructor.
+  - destruct (select e st arms 0) as [| |i gi e' [s xs|x]] eqn:Es.
+    + inversion H; subst. apply Run_stuck. apply select_none_iff. exact Es.
+    + inversion H; subst. apply Run_guard_err. apply select_err_iff. exact Es.
+    + apply select_fires_iff in Es. destruct (eval_list e' xs) as [vs|] eqn:Ev.
+      * destruct (run arms n e' (s, vs)) as [tr' o'] eqn:Er. inversion H; subst.
+        eapply Run_next; [exact Es|exact Ev|]. apply IH. exact Er.
+      * inversion H; subst. eapply Run_next_err; eassumption.
+    + apply select_fires_iff in Es. destruct (eval e' x) as [v|] eqn:Ev; inversion H; subst.
+      * eapply Run_out; eassumption.
+      * eapply Run_out_err; eassumption.
+Qed.
+
+Lemma run_complete arms : forall n e st tr o, Run arms n e st tr o -> run arms n e st = (tr, o).
+Proof.
+  intros n e st tr o H. induction H; cbn [run].
+  - reflexivity.
+  - apply select_none_iff in H. rewrite H. reflexivity.
+  - apply select_err_iff in H. rewrite H. reflexivity.
+  - apply select_fires_iff in H. rewrite H, H0. reflexivity.
+  - apply select_fires_iff in H. rewrite H, H0. reflexivity.
+  - apply select_fires_iff in H. rewrite H, H0, IHRun. reflexivity.
+  - apply select_fires_iff in H. rewrite H, H0. reflexivity.
+Qed.
+
+Theorem run_iff_Run arms n e st tr o : run arms n e st = (tr, o) <-> Run arms n e st tr o.
+Proof. split; [apply run_sound|apply run_complete]. Qed.
+
+(* determinism: a declaration and its arguments determine ONE run *)
+Theorem Run_deterministic arms n e st tr o tr' o' :
+  Run arms n e st tr o -> Run arms n e st tr' o' -> tr = tr' /\ o = o'.
+Proof.
+  intros H H'. apply run_complete in H, H'. rewrite H in H'. inversion H'. auto.
+Qed.
+
+(* ---------- every consecutive pair of visits is the first enabled transition ---------- *)
+Definition step_ok (arms : list arm) (v1 v2 : visit) : Prop :=
+  exists e e' i gi xs,
+    fires e (v_state v1) arms i gi e' (TNext (fst (v_state v2)) xs) /\
+    eval_list e' xs = Ok (snd (v_state v2)) /\
+    v_arm v1 = Some (i, gi).
+
+Lemma Run_head arms n e st tr o :
+  Run arms n e st tr o -> forall v rest, tr = v :: rest -> v_state v = st.
+Proof. intros H v rest Ht. destruct H; inversion Ht; subst; reflexivity. Qed.
+
+Theorem Run_trace_first_enabled arms n e st tr o :
+  Run arms n e st tr o ->
+  forall k v1 v2, nth_error tr k = Some v1 -> nth_error tr (S k) = Some v2 -> step_ok arms v1 v2.
+Proof.
+  intros H. induction H; intros k v1 v2 Hk1 Hk2;
+    try (destruct k as [|[|k]]; cbn in Hk1, Hk2; discriminate).
+  destruct k as [|k].
+  - cbn in Hk1. inversion Hk1; subst v1. cbn in Hk2.
+    destruct tr as [|w rest]; [discriminate|]. cbn in Hk2. inversion Hk2; subst w.
+    pose proof (Run_head _ _ _ _ _ _ H1 v2 rest eq_refl) as Hs.
+    exists e, e', i, gi, xs. rewrite Hs. cbn. auto.
+  - cbn in Hk1, Hk2. eapply IHRun; eassumption.
+Qed.
+
+(* the run ends at an output arm exactly when it returns a value *)
+Theorem Run_ends_at_output arms n e st tr o :
+  Run arms n e st tr o -> forall v, o = ODone v ->
+  exists pre lv e1 e2 i gi x,
+    tr = pre ++ [lv] /\ fires e1 (v_state lv) arms i gi e2 (TOut x) /\ eval e2 x = Ok v /\
+    v_arm lv = Some (i, gi).
+Proof.
+  intros H. induction H; intros w Ho; try discriminate.
+  - inversion Ho; subst. exists [], (Visit st (Some (i, gi))), e, e', i, gi, x. cbn. auto.
+  - destruct (IHRun w Ho) as (pre & lv & e1 & e2 & i' & gi' & x & -> & Hf & He & Ha).
+    exists (Visit st (Some (i, gi)) :: pre), lv, e1, e2, i', gi', x. cbn. auto.
+Qed.
+
+(* and every earlier visit took a transition (no output, no halt before the end) *)
+Theorem Run_inner_visits_transition arms n e st tr o :
+  Run arms n e st tr o -> forall k v, nth_error tr k = Some v -> S k < List.length tr ->
+  exists i gi, v_arm v = Some (i, gi).
+Proof.
+  intros H. induction H; intros k w Hk Hlt; try (cbn in Hlt; lia).
+  destruct k as [|k]; cbn in Hk.
+  - inversion Hk; subst. cbn. eauto.
+  - cbn in Hlt. eapply IHRun; [exact Hk|lia].
+Qed.
+
+(* ---------- the transition limit ---------- *)
+Theorem Run_length arms n e st tr o : Run arms n e st tr o -> List.length tr <= n.
+Proof. intros H. induction H; cbn; lia. Qed.
+
+Theorem Run_limit_exact arms n e st tr o :
+  Run arms n e st tr o -> forall st', o = OLimit st' -> List.length tr = n.
+Proof. intros H. induction H; intros st' Ho; try discriminate; cbn; [reflexivity|]. erewrite IHRun; eauto. Qed.
+
+Theorem Run_not_limit_short arms n e st tr o :
+  Run arms n e st tr o -> (forall st', o <> OLimit st') -> 1 <= List.length tr.
+Proof. intros H. induction H; intros Hno; cbn; try lia. exfalso. eapply Hno. reflexivity. Qed.
+
+(* more fuel does not change a run that ended by itself *)
+Theorem Run_fuel_stable arms n e st tr o :
+  Run arms n e st tr o -> (forall st', o <> OLimit st') -> forall m, n <= m -> Run arms m e st tr o.
+Proof.
+  intros H. induction H; intros Hno m Hm.
+  - exfalso. eapply Hno. reflexivity.
+  - destruct m; [lia|]. apply Run_stuck. assumption.
+  - destruct m; [lia|]. apply Run_guard_err. assumption.
+  - destruct m; [lia|]. eapply Run_out; eassumption.
+  - destruct m; [lia|]. eapply Run_out_err; eassumption.
+  - destruct m; [lia|]. eapply Run_next; [eassumption|eassumption|]. apply IHRun; [assumption|lia].
+  - destruct m; [lia|]. eapply Run_next_err; eassumption.
+Qed.
+
+(* a run that needs more than [m] iterations is cut off after exactly [m] of them *)
+Theorem Run_cut arms n e st tr o :
+  Run arms n e st tr o -> forall m, m < List.length tr ->
+  exists st', Run arms m e st (firstn m tr) (OLimit st').
+Proof.
+  intros H. induction H; intros m Hm; cbn in Hm; try (assert (m = 0) by lia; subst m; eexists; cbn; constructor).
+  destruct m as [|m].
+  - eexists. cbn. constructor.
+  - destruct (IHRun m ltac:(lia)) as [st' Hr]. exists st'. cbn [firstn].
+    eapply Run_next; eassumption.
+Qed.
+
+(* =====================================================================
+   3. Invocation: arguments, validation, start state
+   ===================================================================== *)
+Lemma memb_In x l : memb x l = true <-> In x l.
+Proof.
+  induction l as [|y r IH]; cbn; [split; [discriminate|tauto]|].
+  rewrite orb_true_iff, IH, String.eqb_eq. split; intros [H|H]; auto.
+Qed.
+
+Lemma forallb_false_ex {A} (f : A -> bool) l : forallb f l = false -> exists x, In x l /\ f x = false.
+Proof.
+  induction l as [|a r IH]; cbn; [discriminate|]. intros H. apply andb_false_iff in H as [H|H].
+  - exists a. auto.
+  - destruct (IH H) as (x & Hi & Hx). exists x. auto.
+Qed.
+
+Lemma validate_false_witness d :
+  validate d = false -> exists s, In s (all_targets d) /\ memb s (arm_names d) = false.
+Proof.
+  unfold validate. destruct (arm_names d) as [|n0 ns] eqn:En; [discriminate|].
+  intros H. apply andb_false_iff in H as [H|H].
+  - exists (fst (d_start d)). split; [left; reflexivity|exact H].
+  - apply forallb_false_ex in H as (a & Ha & H). apply forallb_false_ex in H as (s & Hs & H).
+    exists s. split; [|exact H]. right. apply in_flat_map. exists a. auto.
+Qed.
+
+(* whatever the code rejects is ill-formed in the sense of the property *)
+Theorem validate_false_ill_formed d : validate d = false -> ill_formed d = true.
+Proof.
+  intros H. destruct (validate_false_witness d H) as (s & Hs & Hm).
+  unfold ill_formed. apply orb_true_iff.
+  destruct (memb s (declared d)) eqn:Hd.
+  - right. unfold armless_declared. apply existsb_exists. exists s. split; [apply memb_In; exact Hd|].
+    rewrite Hm. reflexivity.
+  - left. unfold undeclared_target. apply existsb_exists. exists s. split; [exact Hs|]. rewrite Hd. reflexivity.
+Qed.
+
+(* outside the two known-finding classes, ill-formed = rejected by validation *)
+Lemma ill_formed_validate d :
+  ill_formed d = true -> kf_undeclared_with_arm d = false -> kf_armless_unreferenced d = false ->
+  validate d = false.
+Proof.
+  unfold ill_formed, kf_undeclared_with_arm, kf_armless_unreferenced.
+  destruct (validate d), (undeclared_target d), (armless_declared d); cbn; congruence.
+Qed.
+
+Theorem ill_formed_never_runs max d args :
+  ill_formed d = true -> kf_undeclared_with_arm d = false -> kf_armless_unreferenced d = false ->
+  forall tr o, run_fsm max d args <> RRun tr o.
+Proof.
+  intros Hi H1 H2 tr o. pose proof (ill_formed_validate d Hi H1 H2) as Hv.
+  unfold run_fsm. rewrite Hv.
+  destruct (negb (Nat.eqb _ _)); [discriminate|].
+  destruct (negb (args_kinds_ok _ _)); [discriminate|].
+  destruct (map_opt arg_value args); [|discriminate].
+  destruct (eval_list _ _); discriminate.
+Qed.
+
+Theorem ill_formed_rejected max d args vals vs :
+  ill_formed d = true -> kf_undeclared_with_arm d = false -> kf_armless_unreferenced d = false ->
+  args_wrong d args = false -> map_opt arg_value args = Some vals ->
+  eval_list (bind_inputs [] (map fst (d_inputs d)) vals) (snd (d_start d)) = Ok vs ->
+  run_fsm max d args = RReject RjState.
+Proof.
+  intros Hi H1 H2 Ha Hv He. pose proof (ill_formed_validate d Hi H1 H2) as Hval.
+  unfold args_wrong in Ha. apply orb_false_iff in Ha as [Ha1 Ha2].
+  unfold run_fsm. rewrite Ha1, Ha2, Hv, He, Hval. reflexivity.
+Qed.
+
+Theorem wrong_args_rejected max d args :
+  args_wrong d args = true -> exists w, run_fsm max d args = RReject w.
+Proof.
+  unfold args_wrong, run_fsm. intros H. apply orb_true_iff in H as [H|H].
+  - rewrite H. eauto.
+  - destruct (negb (Nat.eqb _ _)); [eauto|]. rewrite H. eauto.
+Qed.
+
+(* an accepted invocation: what [RRun] means *)
+Theorem run_fsm_accepted max d args tr o :
+  run_fsm max d args = RRun tr o ->
+  exists vals vs,
+    args_wrong d args = false /\ validate d = true /\ map_opt arg_value args = Some vals /\
+    eval_list (bind_inputs [] (map fst (d_inputs d)) vals) (snd (d_start d)) = Ok vs /\
+    Run (d_arms d) max (bind_inputs [] (map fst (d_inputs d)) vals) (fst (d_start d), vs) tr o.
+Proof.
+  unfold run_fsm, args_wrong. intros H.
+  destruct (negb (Nat.eqb _ _)) eqn:E1; [discriminate|].
+  destruct (negb (args_kinds_ok _ _)) eqn:E2; [discriminate|].
+  destruct (map_opt arg_value args) as [vals|] eqn:E3; [|discriminate].
+  destruct (eval_list _ _) as [vs|] eqn:E4; [|discriminate].
+  destruct (negb (validate d)) eqn:E5; [discriminate|].
+  destruct (run _ _ _ _) as [tr' o'] eqn:E6. inversion H; subst.
+  exists vals, vs. repeat split; auto.
+  - apply negb_false_iff. exact E5.
+  - apply run_sound. exact E6.
+Qed.
+
+Theorem run_fsm_never_hangs max d args tr o :
+  run_fsm max d args = RRun tr o -> List.length tr <= max.
+Proof.
+  intros H. apply run_fsm_accepted in H as (vals & vs & _ & _ & _ & _ & H). eapply Run_length; exact H.
+Qed.
+
+Theorem run_fsm_starts_at_start max d args tr o :
+  run_fsm max d args = RRun tr o ->
+  exists vals vs,
+    map_opt arg_value args = Some vals /\
+    eval_list (bind_inputs [] (map fst (d_inputs d)) vals) (snd (d_start d)) = Ok vs /\
+    (forall v rest, tr = v :: rest -> v_state v = (fst (d_start d), vs)) /\
+    (tr = [] -> max = 0).
+Proof.
+  intros H. apply run_fsm_accepted in H as (vals & vs & _ & _ & Hv & He & H).
+  exists vals, vs. split; [exact Hv|]. split; [exact He|]. split.
+  - intros v rest Ht. eapply Run_head; eassumption.
+  - intros Ht. destruct H; try discriminate. reflexivity.
+Qed.
+
+(* =====================================================================
+   4. Kind discipline: a well-kinded machine returns a value of the declared output kind
+   ===================================================================== *)
+Lemma zs_eqb_eq : forall a b, zs_eqb a b = true -> a = b.
+Proof.
+  induction a as [|x a IH]; intros [|y b] H; cbn in H; try discriminate; [reflexivity|].
+  apply andb_prop in H as [H1 H2]. apply Z.eqb_eq in H1. f_equal; auto.
+Qed.
+
+Lemma value_eqb_eq a b : value_eqb a b = true -> a = b.
+Proof.
+  destruct a, b; cbn; try discriminate; intros H.
+  - apply Z.eqb_eq in H. congruence.
+  - apply zs_eqb_eq in H. congruence.
+Qed.
+
+Definition env_ok (c : ctx) (e : env) : Prop :=
+  forall x t, In (x, t) c -> exists v, lookup e x = Some v /\ has_ty v t = true.
+
+Definition extends (e e' : env) : Prop := forall x v, lookup e x = Some v -> lookup e' x = Some v.
+
+Lemma extends_refl e : extends e e. Proof. intros x v H; exact H. Qed.
+Lemma extends_trans a b c : extends a b -> extends b c -> extends a c.
+Proof. intros H1 H2 x v H. auto. Qed.
+
+Lemma env_ok_extends c e e' : env_ok c e -> extends e e' -> env_ok c e'.
+Proof. intros H He x t Hi. destruct (H x t Hi) as (v & Hl & Ht). exists v. auto. Qed.
+
+Lemma env_ok_app c1 c2 e : env_ok c1 e -> env_ok c2 e -> env_ok (c1 ++ c2) e.
+Proof. intros H1 H2 x t Hi. apply in_app_or in Hi as [Hi|Hi]; auto. Qed.
+
+Lemma env_ok_nil e : env_ok [] e. Proof. intros x t []. Qed.
+
+Lemma lookup_In {A} (c : list (string * A)) x t : lookup c x = Some t -> In (x, t) c.
+Proof.
+  induction c as [|[y u] r IH]; cbn; [discriminate|].
+  destruct (String.eqb x y) eqn:E.
+  - apply String.eqb_eq in E. subst. intros H. inversion H. auto.
+  - auto.
+Qed.
+
+(* ---------- evaluation preserves kinds ---------- *)
+Lemma eval_atom_ty c e a t v :
+  env_ok c e -> ty_atom c a = Some t -> eval_atom e a = Ok v -> has_ty v t = true.
+Proof.
+  intros He Ht Hv. destruct a as [x|z]; cbn in *.
+  - apply lookup_In in Ht. destruct (He x t Ht) as (v' & Hl & Hty). rewrite Hl in Hv. inversion Hv; subst. exact Hty.
+  - destruct (in_u64 z) eqn:E; [|discriminate]. inversion Ht; inversion Hv; subst. exact E.
+Qed.
+
+Lemma eval_items_ty c e : forall items l,
+  env_ok c e ->
+  forallb (fun a => match ty_atom c a with Some _ => true | None => false end) items = true ->
+  eval_items e items = Ok l -> forallb in_u64 l = true.
+Proof.
+  induction items as [|a r IH]; intros l He Ht Hv; cbn in *.
+  - inversion Hv. reflexivity.
+  - apply andb_prop in Ht as [Ha Hr].
+    destruct (ty_atom c a) as [t|] eqn:Eta; [|discriminate].
+    destruct (eval_atom e a) as [v|] eqn:Ea; [|discriminate].
+    pose proof (eval_atom_ty c e a t v He Eta Ea) as Hty.
+    destruct (eval_items e r) as [zs|] eqn:Er; [|destruct v; discriminate].
+    specialize (IH zs He Hr eq_refl).
+    destruct v as [z|l']; inversion Hv; subst.
+    + destruct t; cbn in Hty; [|discriminate]. cbn. rewrite Hty, IH. reflexivity.
+    + destruct t; cbn in Hty; [discriminate|]. rewrite forallb_app, Hty, IH. reflexivity.
+Qed.
+
+Lemma arith_ty f a b v : arith f a b = Ok v -> has_ty v TyNum = true.
+Proof.
+  unfold arith. destruct a as [[x|]|]; try discriminate. destruct b as [[y|]|]; try discriminate.
+  destruct (in_u64 (f x y)) eqn:E; [|discriminate]. intros H. inversion H; subst. exact E.
+Qed.
+
+Lemma eval_ty c e : forall x t v,
+  env_ok c e -> ty_expr c x = Some t -> eval e x = Ok v -> has_ty v t = true.
+Proof.
+  intros x t v He Ht Hv. destruct x as [a|a b|a b|a b|items]; cbn in Ht, Hv.
+  - eapply eval_atom_ty; eassumption.
+  - destruct (andb _ _); [|discriminate]. inversion Ht; subst. eapply arith_ty; exact Hv.
+  - destruct (andb _ _); [|discriminate]. inversion Ht; subst. eapply arith_ty; exact Hv.
+  - destruct (andb _ _); [|discriminate]. inversion Ht; subst. eapply arith_ty; exact Hv.
+  - destruct (forallb _ items) eqn:Ef; [|discriminate]. inversion Ht; subst.
+    destruct (eval_items e items) as [l|] eqn:Ei; [|discriminate]. inversion Hv; subst. cbn.
+    eapply eval_items_ty; eassumption.
+Qed.
+
+Definition vals_ok (vs : list value) (ts : list ty) : Prop := Forall2 (fun v t => has_ty v t = true) vs ts.
+
+Lemma ty_eqb_eq a b : ty_eqb a b = true -> a = b.
+Proof. destruct a, b; cbn; congruence. Qed.
+
+Lemma eval_list_ty c e : forall xs ts vs,
+  env_ok c e -> tys_exprs c xs ts = true -> eval_list e xs = Ok vs -> vals_ok vs ts.
+Proof.
+  induction xs as [|x r IH]; intros [|t ts] vs He Ht Hv; cbn in Ht, Hv; try discriminate.
+  - inversion Hv. constructor.
+  - apply andb_prop in Ht as [Hx Hr].
+    destruct (ty_expr c x) as [t'|] eqn:Etx; [|discriminate]. apply ty_eqb_eq in Hx. subst t'.
+    destruct (eval e x) as [v|] eqn:Ex; [|discriminate].
+    destruct (eval_list e r) as [vs'|] eqn:Er; [|discriminate]. inversion Hv; subst.
+    constructor; [eapply eval_ty; eassumption|eapply IH; eauto].
+Qed.
+
+(* ---------- pattern matching binds values of the right kinds ---------- *)
+Lemma bind_var_spec e x v e' :
+  bind_var e x v = Some e' -> extends e e' /\ lookup e' x = Some v.
+Proof.
+  unfold bind_var. destruct (lookup e x) as [v'|] eqn:El.
+  - destruct (value_eqb v' v) eqn:Ev; [|discriminate]. intros H. inversion H; subst.
+    apply value_eqb_eq in Ev. subst. split; [apply extends_refl|exact El].
+  - intros H. inversion H; subst. split.
+    + intros y w Hy. cbn. destruct (String.eqb y x) eqn:E; [|exact Hy].
+      apply String.eqb_eq in E. subst. congruence.
+    + cbn. rewrite String.eqb_refl. reflexivity.
+Qed.
+
+Lemma match_ipats_spec : forall ps e zs e',
+  match_ipats e ps zs = Some e' -> forallb in_u64 zs = true ->
+  extends e e' /\ env_ok (flat_map ipat_ctx ps) e'.
+Proof.
+  induction ps as [|p r IH]; intros e zs e' H Hz; cbn in H.
+  - inversion H; subst. split; [apply extends_refl|apply env_ok_nil].
+  - destruct zs as [|z zs]; [discriminate|]. cbn in Hz. apply andb_prop in Hz as [Hz1 Hz2].
+    destruct (match_ipat e p z) as [e1|] eqn:E1; [|discriminate].
+    destruct (IH e1 zs e' H Hz2) as [Hx Hok].
+    assert (H1 : extends e e1 /\ env_ok (ipat_ctx p) e1).
+    { destruct p as [x|n]; cbn in E1.
+      - apply bind_var_spec in E1 as [Hext Hl]. split; [exact Hext|].
+        intros y t [Hi|[]]. inversion Hi; subst. exists (VNum z). split; [exact Hl|exact Hz1].
+      - destruct (Z.eqb n z); [|discriminate]. inversion E1; subst. split; [apply extends_refl|apply env_ok_nil]. }
+    destruct H1 as [Hext1 Hok1]. split; [eapply extends_trans; eassumption|].
+    cbn [flat_map]. apply env_ok_app; [eapply env_ok_extends; eassumption|exact Hok].
+Qed.
+
+Lemma forallb_firstn {A} (f : A -> bool) n l : forallb f l = true -> forallb f (firstn n l) = true.
+Proof.
+  revert l. induction n as [|n IH]; intros [|a l] H; cbn in *; auto.
+  apply andb_prop in H as [H1 H2]. rewrite H1, IH; auto.
+Qed.
+
+Lemma forallb_skipn {A} (f : A -> bool) n l : forallb f l = true -> forallb f (skipn n l) = true.
+Proof.
+  revert l. induction n as [|n IH]; intros [|a l] H; cbn in *; auto.
+  apply andb_prop in H as [H1 H2]. auto.
+Qed.
+
+Lemma match_pat_spec e p v t c e' :
+  match_pat e p v = Some e' -> has_ty v t = true -> pat_ctx p t = Some c ->
+  extends e e' /\ env_ok c e'.
+Proof.
+  intros Hm Hty Hc. destruct p as [x|n| |pre sp suf].
+  - cbn in Hc. inversion Hc; subst. assert (Hb : bind_var e x v = Some e') by (destruct v; exact Hm).
+    apply bind_var_spec in Hb as [Hext Hl]. split; [exact Hext|].
+    intros y t' [Hi|[]]. inversion Hi; subst. exists v. auto.
+  - destruct t; cbn in Hc; [|discriminate]. inversion Hc; subst.
+    destruct v as [z|l]; cbn in Hm; [|discriminate]. destruct (Z.eqb n z); [|discriminate].
+    inversion Hm; subst. split; [apply extends_refl|apply env_ok_nil].
+  - cbn in Hc. inversion Hc; subst. assert (e' = e) by (destruct v; cbn in Hm; congruence). subst.
+    split; [apply extends_refl|apply env_ok_nil].
+  - destruct t; cbn in Hc; [discriminate|]. inversion Hc; subst. clear Hc.
+    destruct v as [z|l]; [discriminate|]. cbn in Hty. cbn [match_pat] in Hm.
+    destruct (Nat.ltb _ _); [discriminate|].
+    destruct (match_ipats e pre l) as [e1|] eqn:E1; [|discriminate].
+    destruct (match_ipats e1 suf _) as [e2|] eqn:E2; [|discriminate].
+    destruct (match_ipats_spec _ _ _ _ E1 Hty) as [Hx1 Hok1].
+    destruct (match_ipats_spec _ _ _ _ E2 (forallb_skipn _ _ _ Hty)) as [Hx2 Hok2].
+    assert (Hrest : extends e2 e' /\ env_ok (match sp with SRest x => [(x, TyVec)] | _ => [] end) e').
+    { destruct sp as [| |x].
+      - destruct (Nat.eqb _ _); [|discriminate]. inversion Hm; subst. split; [apply extends_refl|apply env_ok_nil].
+      - inversion Hm; subst. split; [apply extends_refl|apply env_ok_nil].
+      - apply bind_var_spec in Hm as [Hext Hl]. split; [exact Hext|].
+        intros y t' [Hi|[]]. inversion Hi; subst. eexists. split; [exact Hl|].
+        cbn. apply forallb_firstn. apply forallb_skipn. exact Hty. }
+    destruct Hrest as [Hx3 Hok3].
+    split; [eapply extends_trans; [exact Hx1|eapply extends_trans; eassumption]|].
+    apply env_ok_app; [|apply env_ok_app].
+    + eapply env_ok_extends; [exact Hok1|eapply extends_trans; eassumption].
+    + exact Hok3.
+    + eapply env_ok_extends; eassumption.
+Qed.
+
+Lemma match_pats_spec : forall ps e vs ts c e',
+  match_pats e ps vs = Some e' -> vals_ok vs ts -> pats_ctx ps ts = Some c ->
+  extends e e' /\ env_ok c e'.
+Proof.
+  induction ps as [|p r IH]; intros e vs ts c e' Hm Hv Hc.
+  - destruct vs; [|discriminate]. inversion Hv; subst. cbn in Hm, Hc. inversion Hm; inversion Hc; subst.
+    split; [apply extends_refl|apply env_ok_nil].
+  - destruct vs as [|v vs]; [discriminate|]. inversion Hv as [|v' t' vs' ts' Hvt Hvs]; subst.
+    cbn in Hm, Hc.
+    destruct (match_pat e p v) as [e1|] eqn:E1; [|discriminate].
+    destruct (pat_ctx p t') as [c1|] eqn:Ec1; [|discriminate].
+    destruct (pats_ctx r ts') as [c2|] eqn:Ec2; [|discriminate]. inversion Hc; subst.
+    destruct (match_pat_spec _ _ _ _ _ _ E1 Hvt Ec1) as [Hx1 Hok1].
+    destruct (IH _ _ _ _ _ Hm Hvs Ec2) as [Hx2 Hok2].
+    split; [eapply extends_trans; eassumption|].
+    apply env_ok_app; [eapply env_ok_extends; eassumption|exact Hok2].
+Qed.
+
+(* ---------- the invariant of the run ---------- *)
+Definition state_ok (sg : sig) (st : state) : Prop :=
+  exists ts, lookup sg (fst st) = Some ts /\ vals_ok (snd st) ts.
+
+Lemma fires_wt sg out arms e st i gi e' t :
+  forallb (wt_arm sg out) arms = true -> state_ok sg st -> fires e st arms i gi e' t ->
+  exists c, env_ok c e' /\ wt_target sg out c t = true.
+Proof.
+  intros Hwt (ts & Hsg & Hvs) (a & Hn & Hm & _ & Hg).
+  rewrite forallb_forall in Hwt. specialize (Hwt a (nth_error_In _ _ Hn)).
+  unfold wt_arm in Hwt. unfold match_arm in Hm.
+  destruct (andb _ _) eqn:Eh in Hm; [|discriminate]. apply andb_prop in Eh as [Hname _].
+  apply String.eqb_eq in Hname. rewrite Hname, Hsg in Hwt.
+  destruct (pats_ctx (a_pats a) ts) as [c|] eqn:Ec; [|discriminate].
+  apply andb_prop in Hwt as [_ Hb].
+  destruct (match_pats_spec _ _ _ _ _ _ Hm Hvs Ec) as [_ Hok].
+  exists c. split; [exact Hok|].
+  destruct gi as [j|].
+  - destruct Hg as (gs & Hbody & g & Hnth & _ & _). rewrite Hbody in Hb. cbn in Hb.
+    rewrite forallb_forall in Hb. specialize (Hb _ (nth_error_In _ _ Hnth)). cbn in Hb.
+    apply andb_prop in Hb as [_ Hb]. exact Hb.
+  - rewrite Hg in Hb. exact Hb.
+Qed.
+
+Theorem Run_output_typed sg out arms :
+  forallb (wt_arm sg out) arms = true ->
+  forall n e st tr o, Run arms n e st tr o -> state_ok sg st ->
+  forall v, o = ODone v -> has_ty v out = true.
+Proof.
+  intros Hwt n e st tr o H. induction H; intros Hst w Ho; try discriminate.
+  - inversion Ho; subst. destruct (fires_wt _ _ _ _ _ _ _ _ _ Hwt Hst H) as (c & Hok & Ht).
+    cbn in Ht. destruct (ty_expr c x) as [t'|] eqn:Et; [|discriminate]. apply ty_eqb_eq in Ht. subst.
+    eapply eval_ty; eassumption.
+  - apply IHRun; [|exact Ho].
+    destruct (fires_wt _ _ _ _ _ _ _ _ _ Hwt Hst H) as (c & Hok & Ht).
+    cbn in Ht. destruct (lookup sg s) as [ts|] eqn:Es; [|discriminate].
+    exists ts. split; [exact Es|]. eapply eval_list_ty; eassumption.
+Qed.
+
+(* ---------- arguments of the right kind are values of the right kind ---------- *)
+Lemma lookup_remove_other (e : env) x y : x <> y -> lookup (remove_all [y] e) x = lookup e x.
+Proof.
+  intros Hne. induction e as [|[z v] r IH]; cbn; [reflexivity|].
+  destruct (String.eqb z y) eqn:Ezy; cbn.
+  - apply String.eqb_eq in Ezy. subst. destruct (String.eqb x y) eqn:Exy; [apply String.eqb_eq in Exy; contradiction|exact IH].
+  - destruct (String.eqb x z); [reflexivity|exact IH].
+Qed.
+
+Lemma lookup_set_same e x v : lookup (set_var e x v) x = Some v.
+Proof. cbn. rewrite String.eqb_refl. reflexivity. Qed.
+
+Lemma lookup_set_other e x y v : x <> y -> lookup (set_var e y v) x = lookup e x.
+Proof.
+  intros Hne. cbn. destruct (String.eqb x y) eqn:E; [apply String.eqb_eq in E; contradiction|].
+  apply lookup_remove_other. exact Hne.
+Qed.
+
+Lemma lookup_bind_inputs_notin : forall ns vs e x, ~ In x ns -> lookup (bind_inputs e ns vs) x = lookup e x.
+Proof.
+  induction ns as [|n ns IH]; intros vs e x Hni; cbn; [reflexivity|].
+  destruct vs as [|v vs]; [reflexivity|]. rewrite IH; [|intros Hi; apply Hni; right; exact Hi].
+  apply lookup_set_other. intros ->. apply Hni. left. reflexivity.
+Qed.
+
+Lemma nodupb_NoDup l : nodupb l = true -> NoDup l.
+Proof.
+  induction l as [|x r IH]; cbn; [constructor|]. intros H. apply andb_prop in H as [H1 H2].
+  constructor; [|auto]. intros Hi. apply memb_In in Hi. rewrite Hi in H1. discriminate.
+Qed.
+
+Lemma arg_value_ty a v k t :
+  arg_value a = Some v -> kind_matches k (kind_of_arg a) = true -> ty_of_kind k = Some t -> has_ty v t = true.
+Proof.
+  intros Hv Hk Ht. destruct a as [ka z|el r c d]; cbn in Hv.
+  - destruct (andb _ _) eqn:E; [|discriminate]. apply andb_prop in E as [_ Hz]. inversion Hv; subst.
+    destruct k as [n|el|el r c]; cbn in Hk, Ht; try discriminate.
+    destruct (String.eqb n "u64"); [|discriminate]. inversion Ht; subst. exact Hz.
+  - destruct (andb _ _) eqn:E; [|discriminate]. apply andb_prop in E as [_ E]. apply andb_prop in E as [_ Hd].
+    inversion Hv; subst.
+    destruct k as [n|el'|el' r' c']; cbn in Hk, Ht; try discriminate.
+    + destruct (String.eqb el' "u64"); [|discriminate]. inversion Ht; subst. exact Hd.
+    + destruct (andb (String.eqb el' "u64") _); [|discriminate]. inversion Ht; subst. exact Hd.
+Qed.
+
+Lemma inputs_env_ok : forall ins args vals ic e,
+  inputs_ctx ins = Some ic -> args_kinds_ok ins args = true -> map_opt arg_value args = Some vals ->
+  NoDup (map fst ins) ->
+  env_ok ic (bind_inputs e (map fst ins) vals).
+Proof.
+  induction ins as [|[n ok] ins IH]; intros args vals ic e Hic Hk Hv Hnd; cbn in Hic.
+  - inversion Hic; subst. apply env_ok_nil.
+  - destruct ok as [k|]; [|discriminate]. cbn in Hic.
+    destruct (ty_of_kind k) as [t|] eqn:Et; [|discriminate].
+    fold (inputs_ctx ins) in Hic.
+    destruct (inputs_ctx ins) as [ic'|] eqn:Eic; [|discriminate]. inversion Hic; subst.
+    destruct args as [|a args]; [discriminate|]. cbn in Hk. apply andb_prop in Hk as [Hk1 Hk2].
+    cbn in Hv. destruct (arg_value a) as [v|] eqn:Ea; [|discriminate].
+    destruct (map_opt arg_value args) as [vs|] eqn:Evs; [|discriminate]. inversion Hv; subst.
+    cbn in Hnd. inversion Hnd as [|? ? Hni Hnd']; subst. cbn [map fst bind_inputs].
+    intros x tx [Hi|Hi].
+    + inversion Hi; subst. exists v. split.
+      * rewrite lookup_bind_inputs_notin; [apply lookup_set_same|exact Hni].
+      * eapply arg_value_ty; eassumption.
+    + eapply IH; eauto.
+Qed.
+
+Theorem output_kind max d args tr v out :
+  wt_decl d = true -> out_ty d = Some out ->
+  run_fsm max d args = RRun tr (ODone v) -> has_ty v out = true.
+Proof.
+  intros Hwt Hout Hrun. unfold wt_decl in Hwt. rewrite Hout in Hwt.
+  destruct (d_spec d) as [sts|]; [|discriminate].
+  destruct (inputs_ctx (d_inputs d)) as [ic|] eqn:Eic; [|discriminate].
+  destruct (sig_of_spec sts) as [sg|]; [|discriminate].
+  apply andb_prop in Hwt as [Hwt Harms]. apply andb_prop in Hwt as [Hnd Hstart].
+  apply run_fsm_accepted in Hrun as (vals & vs & Haw & _ & Hv & He & Hr).
+  unfold args_wrong in Haw. apply orb_false_iff in Haw as [_ Hk]. apply negb_false_iff in Hk.
+  assert (Hok : env_ok ic (bind_inputs [] (map fst (d_inputs d)) vals)).
+  { eapply inputs_env_ok; try eassumption. apply nodupb_NoDup.
+    replace (map fst (d_inputs d)) with (map fst ic); [exact Hnd|].
+    clear - Eic. revert ic Eic. induction (d_inputs d) as [|[n ok] r IH]; intros ic Eic; cbn in Eic.
+    - inversion Eic. reflexivity.
+    - destruct ok as [k|]; [|discriminate]. cbn in Eic. destruct (ty_of_kind k); [|discriminate].
+      fold (inputs_ctx r) in Eic. destruct (inputs_ctx r) as [ic'|]; [|discriminate].
+      inversion Eic; subst. cbn. f_equal. apply IH. reflexivity. }
+  eapply Run_output_typed; [exact Harms|exact Hr| |reflexivity].
+  cbn in Hstart. destruct (lookup sg (fst (d_start d))) as [ts|] eqn:Es; [|discriminate].
+  exists ts. split; [exact Es|]. eapply eval_list_ty; eassumption.
+Qed.
+
+(* =====================================================================
+   5. The judge: an `ok` verdict transports the property to the observation
+   ===================================================================== *)
+(* how the trace facility shows a run: state names, scalar payloads exactly, vectors by shape,
+   index of the arm and guard that fired (-1: none) *)
+Definition opl_abs (v : value) (o : opl) : Prop :=
+  match v, o with
+  | VNum z, ONum z' => z = z'
+  | VVec l, OVec r c => r = 1 /\ c = List.length l
+  | _, _ => False
+  end.
+
+Definition visit_abs (v : visit) (o : ovisit) : Prop :=
+  fst (v_state v) = ov_name o /\ Forall2 opl_abs (snd (v_state v)) (ov_payload o) /\
+  arm_code (v_arm v) = (ov_arm o, ov_guard o).
+
+Definition trace_abs (tr : list visit) (os : list ovisit) : Prop := Forall2 visit_abs tr os.
+
+Lemma opls_matchb_abs : forall vs os, opls_matchb vs os = true -> Forall2 opl_abs vs os.
+Proof.
+  induction vs as [|v vs IH]; intros [|o os] H; cbn in H; try discriminate; constructor.
+  - apply andb_prop in H as [H _]. destruct v, o; cbn in *; try discriminate.
+    + apply Z.eqb_eq. exact H.
+    + apply andb_prop in H as [H1 H2]. apply Nat.eqb_eq in H1, H2. auto.
+  - apply andb_prop in H as [_ H]. auto.
+Qed.
+
+Lemma trace_matchb_abs : forall tr os, trace_matchb tr os = true -> trace_abs tr os.
+Proof.
+  induction tr as [|v tr IH]; intros [|o os] H; cbn in H; try discriminate; constructor.
+  - apply andb_prop in H as [H _]. unfold visit_matchb, state_matchb in H.
+    apply andb_prop in H as [Hs Ha]. apply andb_prop in Hs as [Hn Hp]. apply andb_prop in Ha as [Ha Hg].
+    apply String.eqb_eq in Hn. apply Z.eqb_eq in Ha, Hg. apply opls_matchb_abs in Hp.
+    split; [exact Hn|]. split; [exact Hp|]. destruct (arm_code (v_arm v)); cbn in *. congruence.
+  - apply andb_prop in H as [_ H]. apply IH. exact H.
+Qed.
+
+Definition LIMIT_ERR : string := "FsmExceededTransitionLimit"%string.
+
+Definition C17_spec (c : case) (ob : fobs) : Prop :=
+  let d := c_decl c in
+  (* ill-formed declaration or wrong arguments: an error, and no state was visited *)
+  ((ill_formed d = true \/ args_wrong d (c_args c) = true) /\ is_err (o_res ob) = true /\ o_trace ob = [])
+  \/
+  (* accepted: the observed state sequence is the run the declaration determines, and it ends
+     with the value of the output arm (of the declared kind) or with the limit error *)
+  (exists vals vs tr o,
+      args_wrong d (c_args c) = false /\ ill_formed d = false /\
+      map_opt arg_value (c_args c) = Some vals /\
+      eval_list (bind_inputs [] (map fst (d_inputs d)) vals) (snd (d_start d)) = Ok vs /\
+      Run (d_arms d) (c_max c) (bind_inputs [] (map fst (d_inputs d)) vals) (fst (d_start d), vs) tr o /\
+      trace_abs tr (o_trace ob) /\
+      ((exists v, o = ODone v /\ o_res ob = enc_value v /\ value_has_out d v = true) \/
+       (exists st, o = OLimit st /\ err_is (o_res ob) LIMIT_ERR = true /\ List.length tr = c_max c))).
+
+Lemma run_fsm_reject_reason max d args w :
+  run_fsm max d args = RReject w -> ill_formed d = true \/ args_wrong d args = true.
+Proof.
+  unfold run_fsm, args_wrong. intros H.
+  destruct (negb (Nat.eqb _ _)) eqn:E1; [right; reflexivity|].
+  destruct (negb (args_kinds_ok _ _)) eqn:E2; [right; reflexivity|].
+  destruct (map_opt arg_value args); [|discriminate].
+  destruct (eval_list _ _); [|discriminate].
+  destruct (negb (validate d)) eqn:E3.
+  - left. apply validate_false_ill_formed. apply negb_true_iff. exact E3.
+  - destruct (run _ _ _ _). discriminate.
+Qed.
+
+Lemma err_is_is_err r n : err_is r n = true -> is_err r = true.
+Proof. unfold err_is, is_err. destruct (err_name r); [reflexivity|discriminate]. Qed.
+
+Lemma ill_formed_accepted_is_kf d :
+  validate d = true -> ill_formed d = true ->
+  kf_undeclared_with_arm d = true \/ kf_armless_unreferenced d = true.
+Proof.
+  unfold ill_formed, kf_undeclared_with_arm, kf_armless_unreferenced. intros ->.
+  destruct (undeclared_target d), (armless_declared d); cbn; auto.
+Qed.
+
+Theorem judge_case_sound c ob tag : judge_case c ob = v_ok tag -> C17_spec c ob.
+Proof.
+  unfold judge_case. destruct (run_fsm (c_max c) (c_decl c) (c_args c)) as [w| | |tr o] eqn:Er.
+  - destruct (rejected_obs ob w) eqn:E; [|discriminate]. intros _. left.
+    apply andb_prop in E as [E1 E2]. split; [eapply run_fsm_reject_reason; exact Er|].
+    split; [eapply err_is_is_err; exact E1|]. destruct (o_trace ob); [reflexivity|discriminate].
+  - discriminate.
+  - discriminate.
+  - destruct (ill_formed (c_decl c)) eqn:Hwf.
+    + destruct (rejected_obs ob RjState) eqn:E; [|destruct (run_matchb tr o ob); discriminate].
+      intros _. left. apply andb_prop in E as [E1 E2]. split; [left; exact Hwf|].
+      split; [eapply err_is_is_err; exact E1|]. destruct (o_trace ob); [reflexivity|discriminate].
+    + pose proof (run_fsm_accepted _ _ _ _ _ Er) as (vals & vs & Haw & Hval & Hv & He & Hr).
+      destruct o as [v| |st|]; try discriminate.
+      * destruct (run_matchb tr (ODone v) ob) eqn:Em; [|discriminate].
+        destruct (value_has_out (c_decl c) v) eqn:Eo; [|discriminate]. intros _. right.
+        unfold run_matchb in Em. apply andb_prop in Em as [Et Ev].
+        exists vals, vs, tr, (ODone v). repeat (split; [assumption|]).
+        split; [apply trace_matchb_abs; exact Et|]. left. exists v. split; [reflexivity|].
+        split; [symmetry; apply sx_eqb_eq; exact Ev|exact Eo].
+      * destruct (run_matchb tr OStuck ob); discriminate.
+      * destruct (run_matchb tr (OLimit st) ob) eqn:Em; [|discriminate]. intros _. right.
+        unfold run_matchb in Em. apply andb_prop in Em as [Et Ev]. apply andb_prop in Ev as [Ev _].
+        exists vals, vs, tr, (OLimit st). repeat (split; [assumption|]).
+        split; [apply trace_matchb_abs; exact Et|]. right. exists st. split; [reflexivity|].
+        split; [exact Ev|]. eapply Run_limit_exact; [exact Hr|reflexivity].
+Qed.
+
+(* a (kf id) verdict is only given inside a known-finding class, and only for the modelled wrong behaviour *)
+Theorem judge_case_kf c ob id :
+  judge_case c ob = v_kf id ->
+  ill_formed (c_decl c) = true /\
+  (kf_undeclared_with_arm (c_decl c) = true \/ kf_armless_unreferenced (c_decl c) = true) /\
+  exists tr o, run_fsm (c_max c) (c_decl c) (c_args c) = RRun tr o /\ run_matchb tr o ob = true.
+Proof.
+  unfold judge_case. destruct (run_fsm (c_max c) (c_decl c) (c_args c)) as [w| | |tr o] eqn:Er.
+  - destruct (rejected_obs ob w); discriminate.
+  - discriminate.
+  - discriminate.
+  - destruct (ill_formed (c_decl c)) eqn:Hwf.
+    + destruct (rejected_obs ob RjState); [discriminate|].
+      destruct (run_matchb tr o ob) eqn:Em; [|discriminate]. intros _.
+      split; [reflexivity|]. split; [|eauto].
+      apply run_fsm_accepted in Er as (vals & vs & _ & Hval & _). apply ill_formed_accepted_is_kf; assumption.
+    + destruct o as [v| |st|]; try discriminate.
+      * destruct (run_matchb _ _ ob); [destruct (value_has_out _ _)|]; discriminate.
+      * destruct (run_matchb _ _ ob); discriminate.
+      * destruct (run_matchb _ _ ob); discriminate.
+Qed.
+
+(* =====================================================================
+   6. Concrete machines: non-vacuity, the two known findings, a machine that never terminates
+   ===================================================================== *)
+Section Examples.
+Local Open Scope string_scope.
+Local Open Scope list_scope.
+Local Open Scope Z_scope.
+
+Definition V (x : string) : expr := EAtom (AVar x).
+Definition L (z : Z) : expr := EAtom (ALit z).
+
+(* the documented counter *)
+Definition counter_arms : list arm :=
+  [ Arm "Count" [PVar "n"]
+        (BG [ (GCmp CGt (V "n") (L 0), TNext "Count" [ESub (V "n") (L 1)]);
+              (GCmp CEq (V "n") (L 0), TNext "Done" [L 0]) ]);
+    Arm "Done" [PVar "n"] (BT (TOut (V "n"))) ].
+
+Definition counter_with (spec : option (list (string * list kind))) : decl :=
+  Decl [("n", Some (KS "u64"))] (Some (KS "u64")) spec ("Count", [V "n"]) counter_arms.
+
+Definition counter : decl := counter_with (Some [("Count", [KS "u64"]); ("Done", [KS "u64"])]).
+
+Lemma counter_example :
+  wt_decl counter = true /\ ill_formed counter = false /\
+  run_fsm 40 counter [AS "u64" 2] =
+    RRun [ Visit ("Count", [VNum 2]) (Some (0%nat, Some 0%nat));
+           Visit ("Count", [VNum 1]) (Some (0%nat, Some 0%nat));
+           Visit ("Count", [VNum 0]) (Some (0%nat, Some 1%nat));
+           Visit ("Done", [VNum 0]) (Some (1%nat, None)) ] (ODone (VNum 0)).
+Proof. repeat split; vm_compute; reflexivity. Qed.
+
+(* exactly as many iterations as the limit allows: the output state is reached but not examined *)
+Lemma counter_limit_example :
+  run_fsm 3 counter [AS "u64" 2] =
+    RRun [ Visit ("Count", [VNum 2]) (Some (0%nat, Some 0%nat));
+           Visit ("Count", [VNum 1]) (Some (0%nat, Some 0%nat));
+           Visit ("Count", [VNum 0]) (Some (0%nat, Some 1%nat)) ] (OLimit ("Done", [VNum 0])).
+Proof. vm_compute. reflexivity. Qed.
+
+(* two guards true at once: the first one in the text wins, whichever it is *)
+Definition overlap (swap : bool) : decl :=
+  let g1 := (GCmp CGe (V "n") (L 1), TNext "Done" [EAdd (V "n") (L 100)]) in
+  let g2 := (GCmp CGe (V "n") (L 2), TNext "Done" [EAdd (V "n") (L 200)]) in
+  Decl [("n", Some (KS "u64"))] (Some (KS "u64")) (Some [("A", [KS "u64"]); ("Done", [KS "u64"])])
+       ("A", [V "n"])
+       [ Arm "A" [PVar "n"] (BG (if swap then [g2; g1] else [g1; g2]));
+         Arm "Done" [PVar "o"] (BT (TOut (V "o"))) ].
+
+Lemma overlap_example :
+  (exists tr, run_fsm 40 (overlap false) [AS "u64" 5] = RRun tr (ODone (VNum 105))) /\
+  (exists tr, run_fsm 40 (overlap true) [AS "u64" 5] = RRun tr (ODone (VNum 205))).
+Proof. split; eexists; vm_compute; reflexivity. Qed.
+
+(* array-pattern states: summing a vector *)
+Definition vsum : decl :=
+  Decl [("xs", Some (KV "u64"))] (Some (KS "u64"))
+       (Some [("S", [KV "u64"; KS "u64"]); ("Done", [KS "u64"])])
+       ("S", [V "xs"; L 0])
+       [ Arm "S" [PArr [] SNone []; PVar "acc"] (BT (TNext "Done" [V "acc"]));
+         Arm "S" [PArr [IVar "x"] (SRest "t") []; PVar "acc"] (BT (TNext "S" [V "t"; EAdd (V "acc") (V "x")]));
+         Arm "Done" [PVar "o"] (BT (TOut (V "o"))) ].
+
+Lemma vsum_example :
+  wt_decl vsum = true /\
+  exists tr, run_fsm 40 vsum [AM "u64" 1 3 [5; 3; 8]] = RRun tr (ODone (VNum 16)) /\ List.length tr = 5%nat.
+Proof. split; [vm_compute; reflexivity|]. eexists. split; vm_compute; reflexivity. Qed.
+
+(* known finding 1: a state with an arm that the specification does not declare *)
+Definition kf1_witness : decl := counter_with (Some [("Count", [KS "u64"])]).
+
+Lemma kf1_refutes :
+  ill_formed kf1_witness = true /\ kf_undeclared_with_arm kf1_witness = true /\
+  exists tr, run_fsm 40 kf1_witness [AS "u64" 2] = RRun tr (ODone (VNum 0)).
+Proof. split; [|split]; [vm_compute; reflexivity..|]. eexists. vm_compute. reflexivity. Qed.
+
+(* known finding 2: a declared state without an arm that nothing refers to *)
+Definition kf2_witness : decl :=
+  counter_with (Some [("Count", [KS "u64"]); ("Done", [KS "u64"]); ("Unused", [KS "u64"])]).
+
+Lemma kf2_refutes :
+  ill_formed kf2_witness = true /\ kf_armless_unreferenced kf2_witness = true /\
+  exists tr, run_fsm 40 kf2_witness [AS "u64" 2] = RRun tr (ODone (VNum 0)).
+Proof. split; [|split]; [vm_compute; reflexivity..|]. eexists. vm_compute. reflexivity. Qed.
+
+(* ill-formed declarations outside the two classes, and wrong arguments *)
+Definition bad_target : decl :=
+  Decl [("n", Some (KS "u64"))] (Some (KS "u64")) (Some [("Closed", [KS "u64"]); ("Open", [KS "u64"])])
+       ("Closed", [V "n"])
+       [ Arm "Closed" [PVar "n"] (BT (TNext "Locked" [V "n"])); Arm "Open" [PVar "n"] (BT (TOut (V "n"))) ].
+
+Lemma rejected_examples :
+  run_fsm 40 bad_target [AS "u64" 1] = RReject RjState /\
+  run_fsm 40 counter [AS "f64" 3] = RReject RjArgKind /\
+  run_fsm 40 counter [AS "u8" 3] = RReject RjArgKind /\
+  run_fsm 40 vsum [AS "u64" 3] = RReject RjArgKind /\
+  run_fsm 40 counter [] = RReject RjArgCount.
+Proof. repeat split; vm_compute; reflexivity. Qed.
+
+(* a machine that never terminates: for EVERY limit it is stopped with the limit error after
+   exactly that many iterations *)
+Definition spin : decl :=
+  Decl [("n", Some (KS "u64"))] (Some (KS "u64")) (Some [("A", [KS "u64"])]) ("A", [V "n"])
+       [ Arm "A" [PVar "n"] (BG [ (GCmp CGt (V "n") (L 100), TOut (V "n")); (GWild, TNext "A" [V "n"]) ]) ].
+
+Lemma spin_step n f :
+  0 <= n <= 100 ->
+  run (d_arms spin) (S f) [("n", VNum n)] ("A", [VNum n]) =
+  (let (tr, o) := run (d_arms spin) f [("n", VNum n)] ("A", [VNum n]) in
+   (Visit ("A", [VNum n]) (Some (0%nat, Some 1%nat)) :: tr, o)).
+Proof.
+  intros Hn. cbn [run].
+  assert (Hsel : select [("n", VNum n)] ("A", [VNum n]) (d_arms spin) 0 =
+                 Sel 0 (Some 1%nat) [("n", VNum n)] (TNext "A" [V "n"])).
+  { cbn. assert (H1 : (100 <? n) = false) by (apply Z.ltb_ge; lia). rewrite H1. reflexivity. }
+  rewrite Hsel. cbn [eval_list eval V eval_atom lookup]. cbn. reflexivity.
+Qed.
+
+Lemma spin_never_terminates n :
+  0 <= n <= 100 ->
+  forall f, run (d_arms spin) f [("n", VNum n)] ("A", [VNum n]) =
+            (repeat (Visit ("A", [VNum n]) (Some (0%nat, Some 1%nat))) f, OLimit ("A", [VNum n])).
+Proof.
+  intros Hn. induction f as [|f IH]; [reflexivity|].
+  rewrite spin_step by exact Hn. rewrite IH. reflexivity.
+Qed.
+
+Lemma spin_stopped n max :
+  0 <= n <= 100 ->
+  exists tr st, run_fsm max spin [AS "u64" n] = RRun tr (OLimit st) /\ List.length tr = max.
+Proof.
+  intros Hn. unfold run_fsm.
+  assert (Hu : in_u64 n = true) by (unfold in_u64, U64MAX; apply andb_true_intro; split; apply Z.leb_le; lia).
+  cbn. rewrite Hu. cbn.
+  change (run _ max _ _) with (run (d_arms spin) max [("n", VNum n)] ("A", [VNum n])).
+  rewrite spin_never_terminates by exact Hn.
+  eexists _, _. split; [reflexivity|]. apply repeat_length.
+Qed.
+End Examples.
+
+(* =====================================================================
+   7. The theorems of sections 2 and 4 at the level of an invocation
+   ===================================================================== *)
+Lemma run_fsm_of_Run max d args vals vs tr o :
+  args_wrong d args = false -> validate d = true -> map_opt arg_value args = Some vals ->
+  eval_list (bind_inputs [] (map fst (d_inputs d)) vals) (snd (d_start d)) = Ok vs ->
+  Run (d_arms d) max (bind_inputs [] (map fst (d_inputs d)) vals) (fst (d_start d), vs) tr o ->
+  run_fsm max d args = RRun tr o.
+Proof.
+  intros Ha Hval Hv He Hr. unfold args_wrong in Ha. apply orb_false_iff in Ha as [Ha1 Ha2].
+  unfold run_fsm. rewrite Ha1, Ha2, Hv, He, Hval. cbn [negb].
+  apply run_complete in Hr. rewrite Hr. reflexivity.
+Qed.
+
+Theorem run_fsm_trace_first_enabled max d args tr o :
+  run_fsm max d args = RRun tr o ->
+  forall k v1 v2, nth_error tr k = Some v1 -> nth_error tr (S k) = Some v2 -> step_ok (d_arms d) v1 v2.
+Proof.
+  intros H. apply run_fsm_accepted in H as (vals & vs & _ & _ & _ & _ & H).
+  eapply Run_trace_first_enabled; exact H.
+Qed.
+
+Theorem run_fsm_ends_at_output max d args tr v :
+  run_fsm max d args = RRun tr (ODone v) ->
+  exists pre lv e1 e2 i gi x,
+    tr = pre ++ [lv] /\ fires e1 (v_state lv) (d_arms d) i gi e2 (TOut x) /\ eval e2 x = Ok v /\
+    v_arm lv = Some (i, gi).
+Proof.
+  intros H. apply run_fsm_accepted in H as (vals & vs & _ & _ & _ & _ & H).
+  eapply Run_ends_at_output; [exact H|reflexivity].
+Qed.
+
+Theorem run_fsm_limit_stops n d args tr o max :
+  run_fsm n d args = RRun tr o -> max < List.length tr ->
+  exists st, run_fsm max d args = RRun (firstn max tr) (OLimit st).
+Proof.
+  intros H Hlt. apply run_fsm_accepted in H as (vals & vs & Ha & Hval & Hv & He & H).
+  destruct (Run_cut _ _ _ _ _ _ H max Hlt) as [st Hr]. exists st.
+  eapply run_fsm_of_Run; eassumption.
+Qed.
+
+Theorem run_fsm_limit_exact max d args tr st :
+  run_fsm max d args = RRun tr (OLimit st) -> List.length tr = max.
+Proof.
+  intros H. apply run_fsm_accepted in H as (vals & vs & _ & _ & _ & _ & H).
+  eapply Run_limit_exact; [exact H|reflexivity].
+Qed.
+
+Theorem run_fsm_fuel_stable n d args tr o m :
+  run_fsm n d args = RRun tr o -> (forall st, o <> OLimit st) -> n <= m -> run_fsm m d args = RRun tr o.
+Proof.
+  intros H Hno Hm. apply run_fsm_accepted in H as (vals & vs & Ha & Hval & Hv & He & H).
+  eapply run_fsm_of_Run; try eassumption. eapply Run_fuel_stable; eassumption.
 Qed.
